@@ -325,6 +325,11 @@ import re as _re
 import datetime as _dt
 import math as _math
 import decimal as _decimal
+# documented constants of third-party libraries that are values, not calls (openpyxl's two date systems)
+_EXT_VALUES = {
+    'ext:openpyxl.utils.datetime.CALENDAR_WINDOWS_1900': _dt.datetime(1899, 12, 30), 'ext:openpyxl.utils.datetime.WINDOWS_EPOCH': _dt.datetime(1899, 12, 30),
+    'ext:openpyxl.utils.datetime.CALENDAR_MAC_1904': _dt.datetime(1904, 1, 1), 'ext:openpyxl.utils.datetime.MAC_EPOCH': _dt.datetime(1904, 1, 1),
+}
 COVERAGE = None     # {'lines': {module: {lineno}}, 'branches': {(module, lineno, col): {True, False}}} when a coverage run asks for it
 _PURE_LIBS = {'re': _re, 'datetime': _dt, 'math': _math, 'decimal': _decimal}
 import os as _os_mod      # noqa: E402
@@ -795,8 +800,8 @@ class Interp:
                         return self._global(gref_, n)
                 if gref_ and gref_.startswith('ext:typing.') and gref_.rpartition('.')[2] in _TYPING_ORIGINS:
                     return Ref(gref_)
-                if gref_ and gref_.startswith('ext:') and (gref_[4:].split('.')[0] in _PURE_LIBS or gref_[4:].split('.')[0] in _FLAG_LIBS) \
-                        and gref_ not in self.call_models:
+                if gref_ and gref_.startswith('ext:') and (gref_[4:].split('.')[0] in _PURE_LIBS or gref_[4:].split('.')[0] in _FLAG_LIBS
+                                                            or gref_ in _EXT_VALUES) and gref_ not in self.call_models:
                     val_ = self._global(gref_, n)
                     if not isinstance(val_, Ref):
                         return val_
@@ -2836,6 +2841,8 @@ def _global_uncached(self, gref, n):
                 return obj_
         if parts_[0] in _FLAG_LIBS and len(parts_) == 2 and isinstance(getattr(_FLAG_LIBS[parts_[0]], parts_[1], None), (int, str)):
             return getattr(_FLAG_LIBS[parts_[0]], parts_[1])          # os.O_WRONLY, os.sep, stat.S_IRUSR, errno.ENOENT: platform constants
+        if gref in _EXT_VALUES:
+            return _EXT_VALUES[gref]
         try:
             return ext_constant(gref[4:])
         except KeyError:
